@@ -97,6 +97,9 @@ pub struct TransportState {
     pub emsgsize_above: Option<usize>,
     pub pending_once: bool,
     pub pending_waker: Option<Waker>,
+    /// > 0: the transport refuses every datagram; counts down at the end of each step and wakes the
+    /// waiter when it reaches 0 (a send buffer that stays full while another datagram arrives)
+    pub pending_hold_steps: u8,
 }
 
 #[derive(Clone)]
@@ -108,6 +111,12 @@ pub struct RecTransport {
 impl RecTransport {
     fn do_send(&self, cx: Option<&mut Context<'_>>, buf: &[u8]) -> Poll<std::io::Result<usize>> {
         let mut g = self.st.lock();
+        if g.pending_hold_steps > 0 {
+            if let Some(cx) = cx {
+                g.pending_waker = Some(cx.waker().clone());
+            }
+            return Poll::Pending;
+        }
         if g.pending_once {
             g.pending_once = false;
             if let Some(cx) = cx {
@@ -323,6 +332,8 @@ pub enum Act {
     Sleep(u64),
     /// the local link starts / stops rejecting datagrams above this size with EMSGSIZE
     Emsgsize(Option<usize>),
+    /// the transport refuses every datagram until the end of the next step
+    TransportPendingHold,
     /// the next send attempt finds the transport not ready
     TransportPendingOnce,
     /// the parked write / flush / shutdown is polled again from another task (a different waker):
@@ -1274,6 +1285,7 @@ impl World {
             Act::Deliver(_) | Act::Deliver2(..) | Act::Deliver3(..) | Act::Spurious | Act::Tick | Act::Wait(_) | Act::Sleep(_) => self.done.is_none(),
             Act::Emsgsize(x) => self.tr.lock().emsgsize_above != *x,
             Act::TransportPendingOnce => !self.tr.lock().pending_once && self.done.is_none(),
+            Act::TransportPendingHold => self.tr.lock().pending_hold_steps == 0 && !self.tr.lock().pending_once && self.done.is_none(),
             Act::RepollWriterOtherTask => self.writer.is_some() && self.w_parked != Parked::No,
             Act::RepollReaderOtherTask => self.reader.is_some() && self.r_parked != Parked::No,
             Act::Par { ops, .. } => {
@@ -1377,6 +1389,7 @@ impl World {
             }
             Act::Emsgsize(x) => self.tr.lock().emsgsize_above = *x,
             Act::TransportPendingOnce => self.tr.lock().pending_once = true,
+            Act::TransportPendingHold => self.tr.lock().pending_hold_steps = 3,
             Act::RepollWriterOtherTask => {
                 // a wake-up that already happened is not lost by the hand-over: the new task polls anyway
                 self.w = Arc::new(Flag::default());
@@ -1418,7 +1431,17 @@ impl World {
         }
         self.quiesce(&mut rec);
         // a transport that was pending becomes ready again "later": wake whoever waited for it
-        let pw = self.tr.lock().pending_waker.take();
+        let pw = {
+            let mut g = self.tr.lock();
+            if g.pending_hold_steps > 0 {
+                g.pending_hold_steps -= 1;
+            }
+            if g.pending_hold_steps > 0 {
+                None
+            } else {
+                g.pending_waker.take()
+            }
+        };
         if let Some(w) = pw {
             w.wake();
             self.quiesce(&mut rec);
@@ -1514,6 +1537,7 @@ impl World {
             let g = self.tr.lock();
             out.push(g.emsgsize_above.map(|x| x as u64).unwrap_or(u64::MAX));
             out.push(g.pending_once as u64);
+            out.push(g.pending_hold_steps as u64);
         }
         if let Some(r) = &self.reader {
             r.verif_fp(out);
